@@ -254,7 +254,7 @@ impl Scenario for C11 {
         "Seeded lifecycle sessions: 1-3 worker threads x 1-2 channels x 0-2 consumers per channel with 0-5 deliveries each, busy RPC/publish work in between; every consumer is ended by one of: client cancel, client cancel twice, drop, server cancel (nowait or not), client channel close with the consumer attached, server channel close, early client connection close, server connection close — events of different kinds race in the same run. Each consumer queue is drained to disconnection. Oracle: fold over the server->client frame order gives the one true terminal and the deliveries before it; received must be exactly those deliveries, then exactly that terminal, then disconnected; <=1 Basic.Cancel per tag from the client; server Cancel answered with CancelOk iff not nowait. Non-trivial = >=2 different terminal kinds observed in the run or a delivery was sent between a client cancel request and its CancelOk; distinct = schedule trace hash.".to_string()
     }
     fn plan(&self, thorough: bool, seed: u64) -> Vec<CaseSpec> {
-        plan_random("C11", "lifecycle", seed, if thorough { 100_000 } else { 5_000 })
+        plan_random("C11", "lifecycle", seed, if thorough { 200_000 } else { 10_000 })
     }
     fn run_case(&self, spec: &CaseSpec, text: bool) -> CaseReport {
         let mut cs = spec.stream();
